@@ -301,6 +301,45 @@ def run(rep, tier="quick", replay=None, evidence_dir=None, collect_only=False):
                 cond_ok = True
         rep.ob("C02.R3", "BufferedBlockSerializer::end decides on the number of buffered items whether a block is pending", cond_ok,
                "items that encode to zero bytes (null, empty records) must still be counted", en.loc())
+    # a block is written only on an item boundary: its header counts complete items and its byte size covers exactly them
+    fam = dict((k, b) for k, b in prog.bodies.items() if "serde::ser_schema::block::BufferedBlockSerializer" in k and b.kind != "Closure")
+
+    def incs(b):
+        return [bi for bi, si, st in b.stmts() if st["s"] == "assign" and st["pl"]["p"] and b.pldesc(st["pl"]).endswith("self.items_in_buffer")
+                and not (st["rv"]["r"] == "use" and st["rv"]["o"].get("k") == "const")]
+    fbc = {}   # function -> may write a block before it has counted an item itself
+
+    def flush_before_count(k, depth=0):
+        if k in fbc:
+            return fbc[k]
+        fbc[k] = False
+        b = fam[k]
+        res = False
+        mine = incs(b)
+        for bi, t in b.calls():
+            tg = [n for n in callee_names(t["func"]) if n in fam]
+            if not tg:
+                continue
+            callee = tg[-1]
+            if callee.endswith("::write_block") or (depth < 4 and flush_before_count(callee, depth + 1)):
+                if not any(b.dominates(i, bi) for i in mine):
+                    res = True
+        fbc[k] = res
+        return res
+    items = [k for k in fam if k.endswith(("::serialize_element", "::serialize_key", "::serialize_value", "::serialize_entry", "::serialize_field"))]
+    for k in sorted(items):
+        b = fam[k]
+        rep.ob("C02.R3", "%s: a block is flushed only after the item it completes was counted" % b.path.split(" as ")[-1].replace(">", ""), not flush_before_count(k),
+               "write_block is reachable before items_in_buffer is incremented: the block header's count and byte size no longer describe whole items (a map block may end between a key and its value)", b.loc())
+    keyf = [k for k in items if k.endswith("::serialize_key")]
+    for k in keyf:
+        def counts(k2, seen=()):
+            b2 = fam[k2]
+            if incs(b2):
+                return True
+            return any(counts(n, seen + (k2,)) for bi, t in b2.calls() for n in callee_names(t["func"]) if n in fam and n not in seen and n != k2)
+        rep.ob("C02.R3", "serialize_key does not count an item (a map entry is counted once, with its value)", not counts(k), "", fam[k].loc())
+    rep.floor("C02.R3", "item methods of BufferedBlockSerializer", len(items), 3)
     D = "serde::ser_schema::block::DirectBlockSerializer::<'s, 'w, W, S>::"
     dn = get(prog, rep, "C02.R3", D + "new")
     if dn is not None:
@@ -377,6 +416,16 @@ def run(rep, tier="quick", replay=None, evidence_dir=None, collect_only=False):
         if b is not None:
             c = [t for bi, t in b.calls() if callee_names(t["func"])[0] == "std::convert::Into::into"]
             rep.ob("C02.R4", "%s delegates to the by-reference conversion" % what, len(c) == 1 and c[0]["dest"]["l"] == 0 and len(list(b.calls())) == 1, "", b.loc())
+
+    # ---------------- R5 union: index and payload belong to the same branch (serde UnionSerializer)
+    rep.rule("C02.R5", "serde UnionSerializer: the branch index written and the wire form of the payload that follows are those of the same branch kind")
+    import unionpair
+    up, nfun = unionpair.scan(prog)
+    for x in up:
+        rep.ob("C02.R5", "%s: index of the %s branch is followed by %s" % (x["fn"].split(" as ")[-1].replace(">", ""), x["tag"], x["kind"]), x["ok"],
+               "a union value is the branch index followed by the value encoded with *that* branch's schema; %s is written as %s on a path where the index of the %s branch was written" % (x.get("want"), x["kind"], x["tag"]), x["loc"])
+    rep.analysed["UnionSerializer functions explored (tagflow)"] = nfun
+    rep.floor("C02.R5", "index/payload pairings observed in UnionSerializer", len(up), 12)
 
     if collect_only:
         return rep
